@@ -47,8 +47,9 @@ pub fn run_check(replay: Option<Value>) -> i32 {
     let only = replay.as_ref().and_then(|c| c["key"].as_str().map(|s| s.to_string()));
     let thorough = is_thorough();
     let probs = problems();
-    let mss = ["span/3", "span/4", "span/pi", "1e-3*span", "inf", "none"];
-    let fss = ["none", "max_step/2", "max_step"];
+    // span/7.02, span/12.05: with steps pinned at max_step the piece left for the last step is 2 % / 5 % of it
+    let mss = ["span/3", "span/4", "span/pi", "1e-3*span", "inf", "none", "span/7.02", "span/12.05"];
+    let fss = ["none", "max_step/2", "max_step", "0.995*span (no finite max_step)"];
     let tols: Vec<f64> = if thorough { vec![1e-3, 1e-4, 1e-5, 1e-6, 1e-7, 1e-8, 1e-9, 1e-10] } else { vec![1e-4, 1e-8] };
     let dims = vec![
         dim("method", &M6.iter().map(|m| mname(*m)).collect::<Vec<_>>()),
@@ -72,13 +73,23 @@ pub fn run_check(replay: Option<Value>) -> i32 {
             2 => Some(span / std::f64::consts::PI),
             3 => Some(1e-3 * span),
             4 => Some(f64::INFINITY),
+            6 => Some(span / 7.02),
+            7 => Some(span / 12.05),
             _ => None,
         };
         let ms_eff = ms.filter(|v| v.is_finite()).unwrap_or(*span);
         let fs: Option<f64> = match idx[4] {
             0 => None,
             1 => Some(0.5 * ms_eff.min(span / 5.0)),
-            _ => Some(ms_eff.min(span / 5.0)),
+            2 => Some(ms_eff.min(span / 5.0)),
+            _ => {
+                // a first step just short of the interval (solvers that stretch a step by up to 1 % land on
+                // xend with it, the others take exactly this step)
+                if idx[3] != 4 && idx[3] != 5 {
+                    return None;
+                }
+                Some(0.995 * span)
+            }
         };
         let opposite = idx[6] == 1;
         if opposite && (fs.is_none() || m == Method::RK4) {
@@ -140,7 +151,10 @@ pub fn run_check(replay: Option<Value>) -> i32 {
             if calls.len() >= 2 {
                 let hobs = (calls[1].t - 0.0) / c2(m);
                 let want = h0.abs() * dir;
-                if (hobs - want).abs() > 1e-12 * want.abs() {
+                // a first step that reaches xend within the 1 % landing stretch may be taken as the
+                // (stretched) final step: RK4, DOPRI5 and DOP853 do that, the others take first_step itself
+                let stretched_ok = 1.01 * h0.abs() >= *span && (hobs - span * dir).abs() <= 1e-12 * span;
+                if (hobs - want).abs() > 1e-12 * want.abs() && !stretched_ok {
                     viol!("first-trial-step", format!("first trial step observed at the RHS interface is {:e}, first_step is {:e}", hobs, want));
                 }
                 out.tag("first-step-checked");
@@ -152,7 +166,7 @@ pub fn run_check(replay: Option<Value>) -> i32 {
                 if accepted_first {
                     out.tag("first-step-accepted");
                 }
-                if accepted_first && (first - want).abs() > 4.0 * f64::EPSILON * want.abs() {
+                if accepted_first && (first - want).abs() > 4.0 * f64::EPSILON * want.abs() && !(stretched_ok && (first - span * dir).abs() <= 4.0 * f64::EPSILON * span) {
                     viol!("first-interval", format!("the first step was accepted but the first interval is {:e}, first_step {:e}", first, want));
                 }
                 out.validated += 1;
